@@ -77,6 +77,14 @@ def run_prop(run, scr, tier, seed, prop, e1=None, diff=(), diff_load=(2, 8), ext
     # confirmation of mismatches: first at kernel level (scalar counterexamples of closure lemmas), then against the reference implementation
     if mism:
         confirmed = []
+        if any('wrappers::' in str(m.get('name', '')) for m in mism):
+            from props import c07, c12
+            res7, msgs7 = c07.native(scr, list(range(0, 1025)))
+            if 'fail' in res7.values():
+                confirmed.append(('wrappers-ctx', msgs7[:3]))
+            res12, msgs12 = c12.native(scr, [0, 1, 16, 31, 32])
+            if 'fail' in res12.values():
+                confirmed.append(('wrappers-rng', msgs12[:3]))
         if any('c08_' in str(m.get('name', '')) for m in mism):
             from props import c08
             res8, msgs8 = c08.native(scr)
@@ -99,7 +107,7 @@ def run_prop(run, scr, tier, seed, prop, e1=None, diff=(), diff_load=(2, 8), ext
                 confirmed.append((what, msgs))
         path = vlib.save_replay(prop, 'skeleton', {'property': prop, 'kind': 'diff', 'diff': list(diff), 'load': list(diff_load), 'seed': seed + 1,
                                                    'mismatches': [{'name': m['name'], 'detail': m['detail']} for m in mism], 'confirmed': [(w, m[:4]) for w, m in confirmed],
-                                                   'scalar_cases': [[n, list(a)] for n, a, _ in getattr(suite, 'scalar_cases', [])], 'codec': any(w == 'codec' for w, _ in confirmed)})
+                                                   'scalar_cases': [[n, list(a)] for n, a, _ in getattr(suite, 'scalar_cases', [])], 'codec': any(w == 'codec' for w, _ in confirmed), 'wrappers': any(w.startswith('wrappers') for w, _ in confirmed)})
         if confirmed:
             run.violation('skeleton-' + mism[0]['name'][:60], f'{mism[0]["name"]}: {mism[0]["detail"][:300]} ; confirmed natively: {confirmed[0][0]}: {confirmed[0][1][:2]}', path)
         else:
@@ -118,6 +126,13 @@ def replay_diff(prop, scr, path):
             vlib.log(f'replay scalar cases ({"release" if rel else "dev"}): {nat}')
             if any(not v[1] for v in nat.values()):
                 bad = True
+    if p.get('wrappers'):
+        from props import c07, c12
+        res7, msgs7 = c07.native(scr, list(range(0, 1025)))
+        res12, msgs12 = c12.native(scr, [0, 1, 16, 31, 32])
+        vlib.log(f'replay wrappers: ctx {res7} {msgs7[:2]} rng {res12} {msgs12[:2]}')
+        if 'fail' in res7.values() or 'fail' in res12.values():
+            bad = True
     if p.get('codec'):
         from props import c08
         res8, msgs8 = c08.native(scr)
